@@ -817,8 +817,13 @@ impl<ChannelSigner: EcdsaChannelSigner> OnchainTxHandler<ChannelSigner> {
 					req.outpoints()[0].txid, req.outpoints()[0].vout);
 				false
 			} else {
+				// A timelocked package may have been aggregated since it was parked: it covers this request
+				// if it claims all of the request's outpoints (not only if it claims exactly those).
 				let timelocked_equivalent_package = self.locktimed_packages.iter().map(|v| v.1.iter()).flatten()
-					.find(|locked_package| locked_package.outpoints() == req.outpoints());
+					.find(|locked_package| {
+						let locked_outpoints = locked_package.outpoints();
+						req.outpoints().iter().all(|outpoint| locked_outpoints.contains(outpoint))
+					});
 				if let Some(package) = timelocked_equivalent_package {
 					log_info!(logger, "Ignoring second claim for outpoint {}:{}, we already have one which we're waiting on a timelock at {} for.",
 						req.outpoints()[0].txid, req.outpoints()[0].vout, package.package_locktime(cur_height));
